@@ -16,7 +16,10 @@ EXPLANATION = (
     "every model of the clauses restricts to a model of the input (R1).  The Ackermannizer is interpreted "
     "on skeletons with nested, repeated and Boolean-valued applications: no application survives, and "
     "the result is equisatisfiable with the input under every 1-bit function table, also when the same "
-    "Ackermannizer instance served another formula with the same applications before (R3d).  Exhaustive "
+    "Ackermannizer instance served another formula with the same applications before, with input symbols spelled "
+    "like the generated constants, with applications stored in array values (R3d).  The module-level wrappers "
+    "cnf / cnf_as_set called in a second real environment after the first converted other formulas give the "
+    "results of a fresh run and contain no node of the first environment (R4).  Exhaustive "
     "dispatch of both CNF converters, quantifiers rejected explicitly (R0).")
 NOT_DECIDED = ["model extension / restriction for arbitrary formulas beyond the per-connective argument of R1"]
 
@@ -30,6 +33,12 @@ def run(ctx):
         dispatch_rule(ctx, rs, CNF, exempt={"ITE": "x"} if False else None)
         dispatch_rule(ctx, rs, PCNF)
         ctx.floor(rs, 120)
+
+    if ctx.want("R4"):
+        rs = ctx.rule("R4", "real managers: cnf / cnf_as_set (and nnf, aig, prenex) called in a second environment, on top of the stack, after the first one converted other formulas: results as when the first did nothing, no node of the first environment in them")
+        from . import mgr_deep
+        mgr_deep.report(ctx, rs, [r for r in mgr_deep.xenv_results() if r[0] != "ok" or ("ForAll" not in r[1] and "Exists" not in r[1] and "BV" not in r[1])],
+                        "pysmt/rewritings.py", 3)
 
     from . import c11_deep
     c11_deep.run(ctx)
